@@ -608,7 +608,8 @@ def extra_schemas(R, E, F, one, report, fin, cfg):
         if path.exit != 'return':
             continue
         hv = var(E, path, I(SELF + ('head',)))
-        ok = not writes(path) and ((hv == 'None' and const_of(E, path.facts, path.ret) == 1) or (hv == 'Some' and const_of(E, path.facts, path.ret) == 0))
+        ok = not writes(path) and ((hv == 'None' and const_of(E, path.facts, path.ret) == 1) or (hv == 'Some' and const_of(E, path.facts, path.ret) == 0)
+                                   or path.ret == ('isv', I(SELF + ('head',)), 'None', OPTION))
         report('C20.R2', fn, path, ok, 'is_empty() == head.is_none(), no write')
     # is_root == parent is None
     fn = one('HeapNode::<T>::is_root')
